@@ -237,13 +237,16 @@ void h_flmalloc(void) {
   if (g_hit) {
     __CPROVER_assert(p == g_hit, "flmalloc hit: returns the parked cell");
     __CPROVER_assert(g_mmap_calls == 0 && g_pushes == 0, "flmalloc hit: maps nothing, pushes nothing");
+    __CPROVER_assert(0, "CANARY reachable: flmalloc hit");
   } else {
     __CPROVER_assert(g_mmap_calls == 1 && p == g_mmap_ret, "flmalloc miss: exactly one mapping, its start (cell 0) is returned");
     if (g_cls >= 12) {
       __CPROVER_assert(g_mmap_len == (size_t)real, "flmalloc miss, large class: maps exactly one block of the class size");
       __CPROVER_assert(g_pushes == 0, "flmalloc miss, large class: nothing is put on a list");
+      __CPROVER_assert(0, "CANARY reachable: flmalloc miss, large class");
     } else {
       __CPROVER_assert(g_mmap_len == PAGE_SIZE, "flmalloc miss, small class: maps one page");
+      __CPROVER_assert(0, "CANARY reachable: flmalloc miss, small class (page carving)");
       __CPROVER_assert(g_pushes == PAGE_SIZE / real - 1, "carving: ALL cells 1..n-1 of the page are put on the list (n = PAGE_SIZE / cellsize), each once");
     }
   }
